@@ -228,7 +228,9 @@ def main():
     if a.what == "replay":
         return cmd_replay(a.arg)
     if a.what in props.REGISTRY:
-        return cmd_check(a.what, a.tier)
+        # two runs of the same property share .work/run/<id> and evidence/<id>.json: the second one waits
+        with Lock("check-" + a.what):
+            return cmd_check(a.what, a.tier)
     print("unknown property", a.what)
     return 2
 
